@@ -1649,8 +1649,12 @@ class TokamakEquilibrium(Equilibrium):
                     if region["psi"] is None:
                         raise ValueError("No psi values in region")
                     leg_psi = region["psi"]
-                    eqreg.pressure = lambda psi: self.pressure(
-                        leg_psi + sign * abs(psi - leg_psi)
+                    # Bind leg_psi and sign as default arguments: a plain closure would
+                    # see the values of the last region of this loop in every region
+                    eqreg.pressure = (
+                        lambda psi, leg_psi=leg_psi, sign=sign: self.pressure(
+                            leg_psi + sign * abs(psi - leg_psi)
+                        )
                     )
                 else:
                     # Core region, so use the core pressure
